@@ -1,5 +1,112 @@
-(* C10 — property theorems. *)
+(* C10 — property theorems.  Only statements, [exact lemma] and Print Assumptions. *)
 From Coq Require Import ZArith List.
-From FV Require Import Lib.RustInt C10.Model C10.Proofs.
+From FV Require Import Lib.RustInt C10.Model C10.Proofs C10.PointProofs C10.IupProofs.
 Import ListNotations.
 Open Scope Z_scope.
+
+(* ---- packed deltas: for every list of i32, reading what the writer wrote gives the list back
+   (whole buffer, `consume_all`; and as a prefix of a longer buffer with the count known, as in a gvar tuple) ---- *)
+Theorem packed_deltas_roundtrip : forall ds, Forall i32 ds -> decode_deltas_all (encode_deltas ds) = ds.
+Proof. exact Proofs.packed_deltas_roundtrip. Qed.
+Theorem packed_deltas_roundtrip_prefix : forall ds rest, Forall i32 ds ->
+  decode_deltas_n (length ds) (encode_deltas ds ++ rest) = ds.
+Proof. exact Proofs.packed_deltas_roundtrip_prefix. Qed.
+Theorem packed_deltas_are_bytes : forall ds, Forall i32 ds -> Forall is_byte (encode_deltas ds).
+Proof. exact encode_deltas_bytes. Qed.
+
+(* ---- packed point numbers: every non-empty non-decreasing (in particular strictly increasing) list of u16
+   of at most 32767 elements is written without panic and read back; "all points" likewise ---- *)
+Theorem packed_points_roundtrip : forall pts, pts <> [] -> nondec 0 pts -> Z.of_nat (length pts) <= 32767 ->
+  exists bytes, encode_points (PSome pts) = WBytes bytes /\ Forall is_byte bytes /\ decode_points bytes = RSome pts.
+Proof. exact points_roundtrip. Qed.
+Theorem strictly_increasing_is_nondec : forall l, Forall (fun p => 0 <= p <= 65535) l -> strictly_increasing l ->
+  forall prev, (match l with [] => True | a :: _ => prev <= a end) -> nondec prev l.
+Proof. exact strict_nondec. Qed.
+Theorem packed_points_all_roundtrip : encode_points PAll = WBytes [0] /\ decode_points [0] = RAll.
+Proof. exact points_all_roundtrip. Qed.
+
+(* ---- every run the writers emit is legal: 1..64 deltas (1..128 points), the control byte decodes to exactly
+   that length and storage class, every value fits the class ---- *)
+Theorem run_lengths_legal : forall ds, Forall i32 ds ->
+  Forall (fun r => (1 <= run_len r <= 64)%nat
+                   /\ count_of_control (run_flag r) = run_len r
+                   /\ rtype_of_control (run_flag r) = run_type r
+                   /\ 0 <= run_flag r < 256
+                   /\ Forall (fits (run_type r)) (run_vals r)) (delta_runs ds).
+Proof. exact delta_run_lengths_legal. Qed.
+Theorem point_run_lengths_legal : forall pts, nondec 0 pts ->
+  exists rs, point_runs (PSome pts) = Some rs /\
+    Forall (fun r => (1 <= length (pr_pts r) <= 128)%nat
+                     /\ read_point_control [prun_ctrl r] = Some (length (pr_pts r), pr_words r, [])
+                     /\ 0 <= prun_ctrl r < 256) rs
+    /\ concat (map pr_pts rs) = pts.
+Proof. exact PointProofs.point_run_lengths_legal. Qed.
+
+(* ---- compute_size is the length of the written bytes (and panics only when that exceeds u16) ---- *)
+Theorem packed_size_computed : forall ds, Forall i32 ds ->
+  (forall s, deltas_compute_size ds = Some s -> s = Z.of_nat (length (encode_deltas ds)))
+  /\ (Z.of_nat (length (encode_deltas ds)) <= 65535 -> deltas_compute_size ds = Some (Z.of_nat (length (encode_deltas ds)))).
+Proof. exact deltas_size_computed. Qed.
+Theorem packed_points_size_computed : forall pts, nondec 0 pts -> Z.of_nat (length pts) <= 32767 ->
+  exists bytes, encode_points (PSome pts) = WBytes bytes /\
+    (forall s, points_compute_size (PSome pts) = Some s -> s = Z.of_nat (length bytes)) /\
+    (Z.of_nat (length bytes) <= 65535 -> points_compute_size (PSome pts) = Some (Z.of_nat (length bytes))).
+Proof. exact points_size_computed. Qed.
+
+(* ---- IUP optimiser, forced-point branch, for EVERY kernel (me, ci_rot, ci_dbl):
+   the mask has the input's length; forced points are retained; at least one point is retained; every point
+   marked optional lies (in the rotated index space the DP works in: rot p = (p + mid) mod n) strictly between
+   two retained points [from] (-1 = the last point) and [to] with no retained point in between and with the
+   kernel's consent can_iup_in_between(from, to) = true ---- *)
+Theorem iup_sound_forced_branch : forall me ci_rot ci_dbl n mask,
+  (0 < n)%nat ->
+  filter me (seq 0 n) <> [] ->
+  contour_mask me ci_rot ci_dbl n = Some mask ->
+  let mid := (n - 1 - list_max (filter me (seq 0 n)))%nat in
+  let retained := fun p => nth p mask false = true in
+  length mask = n
+  /\ (forall p, (p < n)%nat -> me p = true -> retained p)
+  /\ retained (unrot n mid (n - 1))
+  /\ forall p, (p < n)%nat -> ~ retained p ->
+       exists (from : Z) (to : nat),
+         -1 <= from /\ from < Z.of_nat (rot n mid p) < Z.of_nat to /\ (to < n)%nat
+         /\ ci_rot mid from to = true
+         /\ retained (unrot n mid to)
+         /\ retained (unrot n mid (Z.to_nat (from mod Z.of_nat n)))
+         /\ forall q, from < Z.of_nat q < Z.of_nat to -> ~ retained (unrot n mid q).
+Proof. exact iup_sound_forced. Qed.
+
+(* both branches: the mask has the contour's length *)
+Theorem iup_mask_length : forall me ci_rot ci_dbl n mask,
+  contour_mask me ci_rot ci_dbl n = Some mask -> length mask = n.
+Proof. exact contour_mask_length. Qed.
+
+(* the per-contour output keeps length, order and (rounded) values of the input deltas, in every branch *)
+Theorem iup_contour_output_shape : forall deltas coords tol out,
+  iup_contour_optimize deltas coords tol = Some out -> map fst out = map rounded deltas.
+Proof. exact iup_contour_shape. Qed.
+
+(* rotation bookkeeping: (idx + mid) % n and (idx + n - mid) % n are mutually inverse on [0, n), and
+   rotate_right(mid) moves index p to rot p *)
+Theorem iup_rotation_bijective : forall n mid p, (mid < n)%nat -> (p < n)%nat ->
+  unrot n mid (rot n mid p) = p /\ rot n mid (unrot n mid p) = p /\ (rot n mid p < n)%nat /\ (unrot n mid p < n)%nat.
+Proof. exact rotation_bijective. Qed.
+Theorem iup_rotate_right_index : forall (l : list (Z * Z)) d mid p, (mid <= length l)%nat -> (p < length l)%nat ->
+  nth (rot (length l) mid p) (rotate_right mid l) d = nth p l d.
+Proof. exact (fun l d => rotate_right_nth d l). Qed.
+
+Print Assumptions packed_deltas_roundtrip.
+Print Assumptions packed_deltas_roundtrip_prefix.
+Print Assumptions packed_deltas_are_bytes.
+Print Assumptions packed_points_roundtrip.
+Print Assumptions strictly_increasing_is_nondec.
+Print Assumptions packed_points_all_roundtrip.
+Print Assumptions run_lengths_legal.
+Print Assumptions point_run_lengths_legal.
+Print Assumptions packed_size_computed.
+Print Assumptions packed_points_size_computed.
+Print Assumptions iup_sound_forced_branch.
+Print Assumptions iup_mask_length.
+Print Assumptions iup_contour_output_shape.
+Print Assumptions iup_rotation_bijective.
+Print Assumptions iup_rotate_right_index.
